@@ -25,6 +25,7 @@ package middleware
 //@ func NegotiateContentType
 //@ watch PA = call middleware/header.ParseAccept
 //@ requires r != nil
+//@ assigns \nothing
 //@ ensures calls(PA) == 1
 //@ ensures [C07:first] len(ret(PA,0,0)) == 0 ==> result == (len(offers) > 0 ? offers[0] : defaultOffer)
 //@ ensures [C07:none] len(ret(PA,0,0)) > 0 && (forall o int, s int :: 0 <= o && o < len(offers) && 0 <= s && s < len(ret(PA,0,0)) ==> !nmM(offers, ret(PA,0,0), o, s)) ==> result == defaultOffer
@@ -213,3 +214,152 @@ package middleware
 //@ panics ok
 //@ ensures [C20:compose] calls(UO) == 1 && arg(UO,0,1) == opts && calls(FC) == 1 && arg(FC,0,0) == ret(UO,0,1) && calls(UI) == 1 && calls(RH) == 1 && arg(UI,0,1) == ret(RH,0,0)
 //@ ensures [C20:spec] calls(SP) == 1 && arg(SP,0,0) == ret(UO,0,0) && arg(SP,0,2) == ret(UI,0,0) && arg(SP,0,3) == ret(UO,0,2) && result == ret(SP,0,0)
+
+// ---------------------------------------------------------------- validation.go, context.go: content-type gate (C06)
+
+// validateContentType: nil iff the list is empty, or the type parses and is in the
+// list case-insensitively, or the list has "*/*", or (the type has exactly one '/')
+// the list has "<type>/*"; otherwise errors.InvalidContentType (415).
+//@ func validateContentType
+//@ watch PM = call mime.ParseMediaType
+//@ watch CI = call github.com/go-openapi/swag.ContainsStringsCI
+//@ watch SP = call strings.Split
+//@ watch IC = call github.com/go-openapi/errors.InvalidContentType
+//@ ensures [C06:empty] len(allowed) == 0 ==> result == nil && calls(PM) == 0 && calls(CI) == 0
+//@ ensures [C06:parse] len(allowed) > 0 ==> calls(PM) == 1 && arg(PM,0,0) == actual
+//@ ensures [C06:malformed] len(allowed) > 0 && ret(PM,0,2) != nil ==> result != nil && calls(CI) == 0
+//@ ensures [C06:direct] len(allowed) > 0 && ret(PM,0,2) == nil ==> calls(CI) >= 1 && arg(CI,0,0) == allowed && arg(CI,0,1) == ret(PM,0,0) && (ret(CI,0,0) ==> result == nil && calls(CI) == 1)
+//@ ensures [C06:any] calls(CI) >= 2 ==> arg(CI,1,0) == allowed && arg(CI,1,1) == "*/*" && (ret(CI,1,0) ==> result == nil && calls(CI) == 2)
+//@ ensures [C06:wild] calls(CI) >= 2 && !ret(CI,1,0) ==> calls(SP) == 1 && arg(SP,0,0) == actual && arg(SP,0,1) == "/" && (calls(CI) == 3 <==> len(ret(SP,0,0)) == 2)
+//@ ensures [C06:wild2] calls(CI) == 3 ==> arg(CI,2,0) == allowed && arg(CI,2,1) == old(ret(SP,0,0)[0]) + "/*" && (result == nil <==> ret(CI,2,0))
+//@ ensures [C06:refuse] len(allowed) > 0 && result != nil ==> calls(IC) == 1 && arg(IC,0,0) == actual && arg(IC,0,1) == allowed && result == boxof(ret(IC,0,0))
+//@ ensures [C06:refuse2] calls(CI) == 2 && !ret(CI,1,0) ==> result != nil
+//@ ensures [C06:count] calls(CI) <= 3
+
+// (*validation).contentType: a request without a body is not subjected to the
+// check; a parse error comes first; then the 415 gate; the consumer is the one
+// registered for the parsed media type (or a 500 when absent).
+//@ func (*validation).contentType
+//@ watch HB = call runtime.HasBody
+//@ watch CT = call (*Context).ContentType
+//@ watch VC = call validateContentType
+//@ watch EN = call github.com/go-openapi/errors.New
+//@ requires v != nil && v.route != nil && v.context != nil && v.context.debugLogf != nil && v.request != nil && v.request.URL != nil
+//@ stable v.result[*], v.route.Consumers[*], now:v.request.URL
+//@ ensures [C06:probe] old(len(v.result)) == 0 ==> calls(HB) == 1 && arg(HB,0,0) == old(v.request)
+//@ ensures [C06:nobody] old(len(v.result)) != 0 || !ret(HB,0,0) ==> v.result == old(v.result) && v.route.Consumer == old(v.route.Consumer) && v.request == old(v.request) && calls(CT) == 0 && calls(VC) == 0
+//@ ensures [C06:body] old(len(v.result)) == 0 && ret(HB,0,0) ==> calls(CT) == 1 && arg(CT,0,0) == v.context && arg(CT,0,1) == old(v.request)
+//@ ensures [C06:parseerr] calls(CT) == 1 && ret(CT,0,3) != nil ==> calls(VC) == 0 && len(v.result) >= 1 && v.result[0] == ret(CT,0,3) && v.request == old(v.request)
+//@ ensures [C06:gate] calls(CT) == 1 && ret(CT,0,3) == nil ==> v.request == ret(CT,0,2) && calls(VC) == 1 && arg(VC,0,0) == old(v.route.Consumes) && arg(VC,0,1) == ret(CT,0,0)
+//@ ensures [C06:refused] calls(VC) == 1 && ret(VC,0,0) != nil ==> len(v.result) >= 1 && v.result[0] == ret(VC,0,0)
+//@ ensures [C06:consumer] calls(CT) == 1 && ret(CT,0,0) != "" && old(v.route.Consumer) == nil && in(ret(CT,0,0), old(v.route.Consumers)) ==> v.route.Consumer == old(v.route.Consumers)[ret(CT,0,0)] && calls(EN) == 0
+//@ ensures [C06:noconsumer] calls(CT) == 1 && ret(CT,0,0) != "" && old(v.route.Consumer) == nil && !in(ret(CT,0,0), old(v.route.Consumers)) ==> v.route.Consumer == nil && calls(EN) == 1 && arg(EN,0,0) == 500 && len(v.result) >= 1
+//@ ensures [C06:keep] old(v.route.Consumer) != nil ==> v.route.Consumer == old(v.route.Consumer)
+//@ ensures [C06:samereq] v.request != nil && v.request.URL != nil && v.route == old(v.route) && v.context == old(v.context)
+//@ ensures [C06:admitted] calls(CT) == 1 && ret(CT,0,3) == nil && ret(VC,0,0) == nil && calls(EN) == 0 ==> len(v.result) == 0
+//@ assigns v.result, v.request, v.route.Consumer, \opaque
+
+//@ func (*Context).ContentType
+//@ watch RC = call runtime.ContentType
+//@ requires request != nil
+//@ stable request.Header, request.URL, request.Body
+//@ ensures [C06:cached] calls(RC) <= 1
+//@ ensures [C06:fresh] calls(RC) == 1 ==> arg(RC,0,0) == old(request.Header)
+//@ ensures [C06:err] calls(RC) == 1 && ret(RC,0,2) != nil ==> result3 == ret(RC,0,2) && result2 == nil && result0 == "" && result1 == ""
+//@ ensures [C06:okfresh] calls(RC) == 1 && ret(RC,0,2) == nil ==> result3 == nil && result0 == ret(RC,0,0) && result1 == ret(RC,0,1)
+//@ ensures [C06:okcached] calls(RC) == 0 ==> result3 == nil && result2 == request
+//@ ensures [C06:samereq] result3 == nil ==> result2 != nil && result2.URL == old(request.URL) && result2.Header == old(request.Header) && result2.Body == old(request.Body)
+
+// (*Context).BindValidRequest (the entry point used by generated servers): same gate, same consumer.
+//@ func (*Context).BindValidRequest
+//@ watch HB = call runtime.HasBody
+//@ watch RC = call runtime.ContentType
+//@ watch VC = call validateContentType
+//@ watch NG = call NegotiateContentType
+//@ watch BR = invoke (middleware.RequestBinder).BindRequest
+//@ requires c != nil && c.debugLogf != nil && request != nil && route != nil
+//@ stable request.Header, route.Consumers[*]
+//@ ensures [C06:probe] calls(HB) == 1 && arg(HB,0,0) == request
+//@ ensures [C06:nobody] !ret(HB,0,0) ==> calls(RC) == 0 && calls(VC) == 0 && route.Consumer == old(route.Consumer)
+//@ ensures [C06:body] ret(HB,0,0) ==> calls(RC) == 1 && arg(RC,0,0) == old(request.Header)
+//@ ensures [C06:parseerr] calls(RC) == 1 && ret(RC,0,2) != nil ==> calls(VC) == 0 && calls(BR) == 0 && result != nil && route.Consumer == old(route.Consumer)
+//@ ensures [C06:gate] calls(RC) == 1 && ret(RC,0,2) == nil ==> calls(VC) == 1 && arg(VC,0,0) == old(route.Consumes) && arg(VC,0,1) == ret(RC,0,0)
+//@ ensures [C06:refused] calls(VC) == 1 && ret(VC,0,0) != nil ==> calls(BR) == 0 && result != nil && route.Consumer == old(route.Consumer)
+//@ ensures [C06:consumer] calls(VC) == 1 && ret(VC,0,0) == nil && in(ret(RC,0,0), old(route.Consumers)) ==> route.Consumer == old(route.Consumers)[ret(RC,0,0)]
+//@ ensures [C06:noconsumer] calls(VC) == 1 && ret(VC,0,0) == nil && !in(ret(RC,0,0), old(route.Consumers)) ==> calls(BR) == 0 && result != nil && route.Consumer == old(route.Consumer)
+//@ ensures [C07:notacceptable] calls(NG) == 1 && ret(NG,0,0) == "" ==> calls(BR) == 0 && result != nil
+//@ ensures [C06:binder] calls(BR) <= 1 && (calls(BR) == 1 ==> recv(BR,0) == binder && arg(BR,0,0) == request && arg(BR,0,1) == route)
+//@ ensures [C06:bindererr] calls(BR) == 1 && ret(BR,0,0) != nil ==> result == ret(BR,0,0)
+//@ ensures [C06:ok] result == nil ==> (calls(VC) == 1 ==> ret(VC,0,0) == nil) && (calls(RC) == 1 ==> ret(RC,0,2) == nil) && (calls(BR) == 1 ==> ret(BR,0,0) == nil)
+
+// validateRequest: content type, then response format, then parameters; a later stage runs only if no earlier one failed.
+//@ func validateRequest
+//@ watch CT = call (*validation).contentType
+//@ watch RF = call (*validation).responseFormat
+//@ watch PA = call (*validation).parameters
+//@ requires ctx != nil && ctx.debugLogf != nil && request != nil && request.URL != nil && route != nil
+//@ stable request.URL
+//@ ensures [C06:order] calls(CT) == 1 && calls(RF) <= 1 && calls(PA) <= 1 && result != nil && fresh(result)
+//@ ensures [C06:stages] (calls(RF) == 1 ==> time(CT,0) < time(RF,0)) && (calls(PA) == 1 ==> calls(RF) == 1 && time(RF,0) < time(PA,0))
+//@ ensures [C06:gate] calls(PA) == 0 ==> len(result.result) > 0
+//@ ensures [C06:recv] arg(CT,0,0) == result && (calls(PA) == 1 ==> arg(PA,0,0) == result)
+
+// (*validation).responseFormat: no acceptable format for an operation that declares produces => one 406 error.
+//@ func (*validation).responseFormat
+//@ watch RF = call (*Context).ResponseFormat
+//@ watch IR = call github.com/go-openapi/errors.InvalidResponseFormat
+//@ requires v != nil && v.route != nil && v.context != nil && v.context.debugLogf != nil && v.request != nil && v.request.URL != nil
+//@ stable v.result[*]
+//@ ensures [C07:negotiate] calls(RF) == 1 && arg(RF,0,0) == v.context && arg(RF,0,1) == old(v.request) && arg(RF,0,2) == old(v.route.Produces)
+//@ ensures [C07:406] ret(RF,0,0) == "" && len(old(v.route.Produces)) > 0 ==> len(v.result) == old(len(v.result)) + 1 && calls(IR) == 1 && arg(IR,0,1) == old(v.route.Produces) && v.result[len(v.result)-1] == boxof(ret(IR,0,0))
+//@ ensures [C07:ok] !(ret(RF,0,0) == "" && len(old(v.route.Produces)) > 0) ==> v.result == old(v.result) && v.request == old(v.request) && calls(IR) == 0
+//@ assigns v.result, v.request, \opaque
+
+// the reflective handler of an operation: the handler runs only when binding and validation succeeded
+//@ func newRoutableUntypedAPI$1
+//@ watch RI = call (*Context).RouteInfo
+//@ watch BV = call (*Context).BindAndValidate
+//@ watch HD = invoke (runtime.OperationHandler).Handle
+//@ watch RS = call (*Context).Respond
+//@ assume after RI ret(RI,0,0) != nil
+//@ requires r != nil && r.URL != nil && context != nil && context.debugLogf != nil && oh != nil
+//@ stable r.URL
+//@ ensures [bind] calls(RI) == 1 && calls(BV) == 1 && arg(BV,0,2) == ret(RI,0,0) && arg(BV,0,1) == (ret(RI,0,1) != nil ? ret(RI,0,1) : r)
+//@ ensures [nohandler] ret(BV,0,2) != nil ==> calls(HD) == 0 && calls(RS) == 1 && arg(RS,0,5) == ret(BV,0,2) && arg(RS,0,4) == ret(RI,0,0)
+//@ ensures [handler] ret(BV,0,2) == nil ==> calls(HD) == 1 && recv(HD,0) == oh && arg(HD,0,0) == ret(BV,0,0) && calls(RS) == 1 && arg(RS,0,1) == w && arg(RS,0,2) == ret(BV,0,1) && arg(RS,0,4) == ret(RI,0,0)
+//@ ensures [result] ret(BV,0,2) == nil ==> arg(RS,0,5) == (ret(HD,0,1) != nil ? ret(HD,0,1) : ret(HD,0,0))
+
+//@ func (*Context).BindAndValidate
+//@ watch CV = invoke (context.Context).Value
+//@ watch VR = call validateRequest
+//@ watch CE = call github.com/go-openapi/errors.CompositeValidationError
+//@ requires c != nil && c.debugLogf != nil && request != nil && request.URL != nil && matched != nil
+//@ stable request.URL
+//@ ensures [C09:lookup] calls(CV) == 1 && arg(CV,0,0) == boxof(ctxBoundParams)
+//@ ensures [C09:memo] typeis(ret(CV,0,0), "*github.com/go-openapi/runtime/middleware.validation") ==> calls(VR) == 0 && result1 == request
+//@ ensures [C09:compute] !typeis(ret(CV,0,0), "*github.com/go-openapi/runtime/middleware.validation") ==> calls(VR) == 1 && arg(VR,0,0) == c && arg(VR,0,1) == request && arg(VR,0,2) == matched
+//@ ensures [C06:outcome] calls(VR) == 1 ==> (result2 != nil <==> len(ret(VR,0,0).result) > 0)
+//@ ensures [C06:error] result2 != nil ==> calls(CE) == 1 && result2 == boxof(ret(CE,0,0))
+
+//@ func (*Context).ResponseFormat
+//@ watch CV = invoke (context.Context).Value
+//@ watch NG = call NegotiateContentType
+//@ requires c != nil && c.debugLogf != nil && r != nil && r.URL != nil
+//@ stable r.URL
+//@ ensures [C09:lookup] calls(CV) == 1 && arg(CV,0,0) == boxof(ctxResponseFormat)
+//@ ensures [C09:memo] typeis(ret(CV,0,0), "string") ==> calls(NG) == 0 && result1 == r && boxof(result0) == ret(CV,0,0)
+//@ ensures [C09:compute] !typeis(ret(CV,0,0), "string") ==> calls(NG) == 1 && arg(NG,0,0) == r && arg(NG,0,1) == offers && arg(NG,0,2) == "" && result0 == ret(NG,0,0)
+//@ ensures [C09:nofailcache] calls(NG) == 1 && ret(NG,0,0) == "" ==> result1 == r
+//@ ensures result1 != nil
+
+//@ func (*Context).RouteInfo
+//@ watch CV = invoke (context.Context).Value
+//@ watch LR = call (*Context).LookupRoute
+//@ requires c != nil && request != nil
+//@ stable request.URL, request.Header, request.Body, request.Method
+//@ ensures [C09:lookup] calls(CV) == 1 && arg(CV,0,0) == boxof(ctxMatchedRoute)
+//@ ensures [C09:memo] typeis(ret(CV,0,0), "*github.com/go-openapi/runtime/middleware.MatchedRoute") ==> calls(LR) == 0 && result1 == request && result2 && boxof(result0) == ret(CV,0,0)
+//@ ensures [C09:compute] !typeis(ret(CV,0,0), "*github.com/go-openapi/runtime/middleware.MatchedRoute") ==> calls(LR) == 1 && arg(LR,0,0) == c && arg(LR,0,1) == request && result2 == ret(LR,0,1)
+//@ ensures [C01:found] calls(LR) == 1 && ret(LR,0,1) ==> result0 == ret(LR,0,0) && result1 != nil
+//@ ensures [C01:notfound] calls(LR) == 1 && !ret(LR,0,1) ==> result0 == nil && result1 == nil
+//@ ensures [C09:samereq] result1 != nil ==> result1.URL == old(request.URL) && result1.Header == old(request.Header) && result1.Body == old(request.Body) && result1.Method == old(request.Method)
